@@ -53,13 +53,14 @@ def _direct_children(n):
 
 
 class Linear:
-    def __init__(self, F, fn, tracked, allow_drop_when_cancelled=True, by_ref_params=()):
+    def __init__(self, F, fn, tracked, allow_drop_when_cancelled=True, by_ref_params=(), disposers=()):
         """tracked: {vid: name}."""
         self.F = F
         self.fn = fn
         self.tracked = dict(tracked)
         self.allow_drop = allow_drop_when_cancelled
         self.byref = set(by_ref_params)
+        self.disposers = set(disposers)
         self.actions = {}      # event sid -> [(vid, kind)] kind in consume|cond_sink
         self.sources = {}      # event sid -> vid   (conditional source call)
         self.bool_of = {}      # bool var vid -> ('src'|'sink', tracked vid, call sid)
@@ -177,6 +178,16 @@ class Linear:
                     if cur == "U":
                         raise dataflow.Violation("'%s' is %s while it holds no task" % (name(vid), what))
                     return self._set(st, vid, "C")
+        # passing the task by lvalue reference to a function that disposes of it on every path
+        if k == "call" and self.disposers and ev.get("callee") in self.disposers:
+            for a in ev.get("args", []):
+                x = strip_casts(a)
+                if isinstance(x, dict) and x.get("k") == "var" and x.get("vid") in self.tracked:
+                    vid = x["vid"]
+                    cur = self._get(st, vid)
+                    if cur == "C":
+                        raise dataflow.Violation("'%s' is disposed of after it was already consumed" % name(vid))
+                    st = self._set(st, vid, "C")
         # assignment to a tracked variable: v = <new value>
         if k in ("call", "bin") and (ev.get("opcall") == "=" or (k == "bin" and ev.get("op") == "=")):
             tgt = strip_casts(ev.get("obj") if k == "call" else ev.get("l"))
@@ -259,12 +270,12 @@ def once_function_vars(fn):
     tracked = {}
     owned = []
     for p in fn.params:
-        t = p.get("type", "")
+        t = p.get("ctype", p.get("type", ""))
         if t in ("dispenso::OnceFunction", "OnceFunction"):
             tracked[p["vid"]] = p["name"]
             owned.append(p["vid"])
     for pos, ev in fn.events():
-        if ev.get("k") == "decl" and ev.get("type") in ("dispenso::OnceFunction", "OnceFunction"):
+        if ev.get("k") == "decl" and ev.get("ctype", ev.get("type")) in ("dispenso::OnceFunction", "OnceFunction"):
             tracked[ev["vid"]] = ev["name"]
     return tracked, owned
 
@@ -294,3 +305,19 @@ def functor_params(fn, forwarders=()):
     # a parameter that is only ever forwarded as a generator (never invoked here) is recognised by
     # its callee doing the same; keep it simple: parameters named like generators are not tasks
     return {v: n for v, n in out.items() if v not in generators}
+
+
+def disposer_functions(F):
+    """Qualified names of functions taking a 'OnceFunction &' that consume it (run or cleanupNotRun)
+    on every path: passing a task to one of them by reference disposes of it."""
+    out = set()
+    for fn in F.fns:
+        ps = [p for p in fn.params if p.get("ctype", p.get("type", "")).replace("dispenso::", "") in ("OnceFunction &",)]
+        if len(ps) != 1:
+            continue
+        tr = {ps[0]["vid"]: ps[0]["name"]}
+        L = Linear(F, fn, tr, allow_drop_when_cancelled=False, by_ref_params=tr.keys())
+        vios, _ = L.run(owned_params=list(tr.keys()))
+        if not vios:
+            out.add(fn.qname)
+    return out
